@@ -355,6 +355,7 @@ CHECKS = {
         "tests": [{"name": "TestC14", "quick": 6000, "thorough": 300000},
                   {"name": "TestC14Overflow", "kind": "plain", "quick": 1, "thorough": 1, "shards": {"quick": 1, "thorough": 1}},
                   {"name": "TestC14Client", "quick": 120, "thorough": 3000},
+                  {"name": "TestC14HeldHandler", "quick": 64, "thorough": 1600},
                   {"name": "TestC14Partial", "quick": 4000, "thorough": 200000}],
     },
     "C01": {
